@@ -178,7 +178,11 @@ package core
 //@   requires b != nil
 //@   call IsGeneratedFile#1 assert [of-file] $0 == file
 //@   call IsGeneratedFile#1 bind gen = $ret0
+//@   call Has#1 assert [of-file] $key == file && $self == b.ConsumableStore
+//@   call Has#1 bind ex = $ret0
+//@   call Has#1 bind herr = $ret1
 //@   ensures [generated-skipped] gen_set && (gen ==> result)
+//@   ensures [nothing-else-skipped] result && !gen ==> b.SkipOnError && ex_set && herr == nil && !ex
 
 //@ func uploadBundleFiles
 //@   modifies store-additive, sync
